@@ -324,6 +324,20 @@ namespace vf
             single = false;
             maybe_snap(true);
         }
+        else if (!single && s.chance(60))
+        {
+            // a single-direction router after a multiple-direction one (mixed table widths)
+            ops.push_back(op_single(0));
+            single = true;
+            maybe_snap(true);
+            if (s.chance(80))
+            {
+                int rr = s.coin() ? va::ROUTE_BASIC : va::ROUTE_CARVE;
+                ops.push_back(op_mst(s.coin() ? va::MST_BORUVKA : va::MST_KRUSKAL, rr));
+                pi.has_basic = rr == va::ROUTE_BASIC;
+                pi.has_carve = rr == va::ROUTE_CARVE;
+            }
+        }
         pi.final_multi = !single;
         if (pinfo)
             *pinfo = pi;
